@@ -59,13 +59,28 @@ func evalAttrs(attrs []*hcl.Attribute, rho *hcl.EvalContext) []obsAttr {
 	return out
 }
 
-// attributes selected by Content in schema order
+// attributes returned by Content / PartialContent: those the schema names in schema
+// order, then any the schema does NOT name (there must be none: the model never returns
+// one; a body that hands back an attribute consumed by an earlier PartialContent shows
+// up here), by name
 func inSchemaOrder(schema *hcl.BodySchema, attrs hcl.Attributes) []*hcl.Attribute {
 	var out []*hcl.Attribute
+	named := map[string]bool{}
 	for _, as := range schema.Attributes {
+		named[as.Name] = true
 		if a, ok := attrs[as.Name]; ok {
 			out = append(out, a)
 		}
+	}
+	var extra []string
+	for n := range attrs {
+		if !named[n] {
+			extra = append(extra, n)
+		}
+	}
+	sort.Strings(extra)
+	for _, n := range extra {
+		out = append(out, attrs[n])
 	}
 	return out
 }
